@@ -64,6 +64,8 @@ impl ExtendedPublicKey {
 //@fn ExtendedPublicKey::from_string_impl
 //@wrapper ExtendedPublicKey::from_string @ src/keypair/extended_public_key.rs = ExtendedPublicKey::from_string_impl
 //@fn ExtendedPublicKey::parse_str_to_idx
+//@fn ExtendedPublicKey::derive_from_path_impl
+//@wrapper ExtendedPublicKey::derive_from_path @ src/keypair/extended_public_key.rs = ExtendedPublicKey::derive_from_path_impl
 }
 // ---- property-level lemma: public derivation of the neutered parent == neutering the privately derived child (normal index) ----
 pub proof fn lemma_ckd_pub_commutes_with_neuter(k: Seq<u8>, chain: Seq<u8>, index: u32)
